@@ -491,26 +491,58 @@ func (e *Exec) model() map[string]string {
 	}
 	sort.Strings(abs)
 	used := map[string]bool{}
-	for idx, a := range abs {
-		n0 := strVals[a][0]
-		in := info[n0]
-		L, _ := strconv.ParseUint(bvValue(in[0], "(_ BitVec 64)"), 10, 64)
-		clean := in[1] == "true"
-		var s string
-		if lit, ok := litAbs[a]; ok {
-			s = lit
-		} else if low, ok := litAbs[in[2]]; ok && strings.ToUpper(low) != low && len(low) == int(L) {
-			// the token is not that literal but lower-cases to it: a case variant
-			s = strings.ToUpper(low)
-			if used[s] {
-				s = strings.ToUpper(low[:1]) + low[1:]
-			}
-		} else {
-			s = spell(idx, int(L), clean, used)
+	baseOf := map[string]string{} // abstract value of a lower-case string -> its spelling
+	caseVariant := func(low string) string {
+		cands := []string{strings.ToUpper(low)}
+		for k := 0; k < len(low); k++ {
+			cands = append(cands, low[:k]+strings.ToUpper(low[k:k+1])+low[k+1:])
 		}
-		used[s] = true
-		for _, n := range strVals[a] {
-			m[n] = s
+		for _, c := range cands {
+			if c != low && !used[c] {
+				return c
+			}
+		}
+		return strings.ToUpper(low)
+	}
+	// first the tokens that are their own lower-case form (or literals), then the case variants
+	for pass := 0; pass < 2; pass++ {
+		for idx, a := range abs {
+			n0 := strVals[a][0]
+			in := info[n0]
+			L, _ := strconv.ParseUint(bvValue(in[0], "(_ BitVec 64)"), 10, 64)
+			clean := in[1] == "true"
+			_, isLit := litAbs[a]
+			_, lowIsLit := litAbs[in[2]]
+			variantOfToken := !isLit && !lowIsLit && in[2] != a
+			if (pass == 0) == variantOfToken {
+				continue
+			}
+			var s string
+			if lit, ok := litAbs[a]; ok {
+				s = lit
+			} else if low, ok := litAbs[in[2]]; ok && strings.ToUpper(low) != low && len(low) == int(L) {
+				// the token is not that literal but lower-cases to it: a case variant
+				s = caseVariant(low)
+			} else if variantOfToken {
+				// lower(token) is another (non-literal) string: spell the token as a case variant of it
+				base, ok := baseOf[in[2]]
+				if !ok {
+					// nothing named is that lower-case string: the first token of the group takes the
+					// lower-case spelling itself (the replay decides whether that was admissible)
+					base = spell(len(abs)+idx, int(L), clean, used)
+					baseOf[in[2]] = base
+					s = base
+				} else {
+					s = caseVariant(base)
+				}
+			} else {
+				s = spell(idx, int(L), clean, used)
+				baseOf[a] = s
+			}
+			used[s] = true
+			for _, n := range strVals[a] {
+				m[n] = s
+			}
 		}
 	}
 	// realise glob patterns: a pattern token becomes a real gobwas pattern that matches exactly the
